@@ -1,5 +1,6 @@
 use crate::common::{Args, Out};
 pub mod conn_enum;
+pub mod exchange;
 pub mod framing;
 pub mod head;
 pub mod headers;
@@ -16,6 +17,8 @@ pub fn run(args: &Args, out: Out) {
         "chunk-gen" => response::run_chunk_gen(args, out),
         "resp-faults" => response::run_faults(args, out),
         "status-all" => response::run_status(args, out),
+        "exchange-gen" => exchange::run_gen(args, out),
+        "limits" => exchange::run_limits(args, out),
         "headers-enum" => headers::run_enum(args, out),
         "ascii-ctors" => headers::run_ctors(args, out),
         "framing-gen" => framing::run_gen(args, out),
